@@ -356,6 +356,8 @@ class Sched:
         if ok:
             _real_join(th, 10)
             self.ev('join', mt.name, 0)
+        else:
+            self.ev('join', mt.name, 1)          # a timed join that expired
         return ok
 
     # -- running a scenario --------------------------------------------------------------------
